@@ -211,6 +211,7 @@ pub struct Flags {
     pub probe_diff: bool,
     pub zero_ttl_put: bool,
     pub put_rejected: bool,
+    pub put_validated_with_ttl: bool,
     pub abandoned: bool,
     pub layer_error_tolerated: bool,
 }
@@ -340,7 +341,7 @@ impl<'a> Interp<'a> {
     /// fresh bytes, unique within the case (4-byte serial prefix, length >= 4)
     fn fresh(&mut self, len: usize) -> (u64, Vec<u8>) {
         self.serial += 1;
-        let len = len.clamp(4, 64 << 20);
+        let len = len.clamp(4, 80 << 20);
         let mut v = Rng::new(self.case.content_seed ^ self.serial.wrapping_mul(0x9E37_79B9_7F4A_7C15)).bytes(len);
         v[..4].copy_from_slice(&(self.serial as u32).to_le_bytes());
         (self.serial, v)
@@ -936,8 +937,13 @@ impl<'a> Interp<'a> {
         } else {
             md5(&v)
         };
-        self.note("put_with_validation", format!("key {key}"), false);
-        let res = self.sut.put_with_validation(&key, ck, &v);
+        // values of odd length go through the TTL variant (same contract, its own code path)
+        let with_ttl = v.len() % 2 == 1;
+        self.note(if with_ttl { "put_with_validation_and_ttl" } else { "put_with_validation" }, format!("key {key}"), false);
+        let res = if with_ttl { self.sut.put_with_validation_and_ttl(&key, ck, &v) } else { self.sut.put_with_validation(&key, ck, &v) };
+        if with_ttl {
+            self.flags.put_validated_with_ttl = true;
+        }
         self.note("judging", String::new(), false);
         match res {
             Ok(()) => {
@@ -1167,6 +1173,7 @@ impl<'a> Interp<'a> {
             .class_if(fl.probe_diff, "probe-differential")
             .class_if(fl.zero_ttl_put, "zero-ttl-put")
             .class_if(fl.put_rejected, "put_with_validation-rejected")
+            .class_if(fl.put_validated_with_ttl, "put_with_validation_and_ttl")
             .class_if(fl.layer_error_tolerated, "disk-error-after-delete-fault")
             .class_if(fl.abandoned, "abandoned-on-put-error");
         v.known_hits = self.known_hits.clone();
